@@ -9,26 +9,35 @@ from .. import strategies as S
 
 PROPERTY = "C04"
 LEVEL = "exploration"
-RULE = ("Generated all-active bounded systems (star+planets >= 8 Hill radii apart with e<=0.3, and hierarchical "
-        "comparable-mass systems for the non-Wisdom-Holman schemes), optional uniform boost, integrator configuration "
-        "from the documented lattice, either time direction, and a generated interleaving of steps()/integrate()/"
-        "synchronize() calls; after every call the state is synchronised and P=sum m v, sum m x - P0 t, L=sum m x x v, "
-        "E and sum m are formed from the raw particle array in numpy longdouble and compared with their initial values; "
-        "tolerances are K*eps*steps*sum|terms| for the rounding-level statements and stated accuracy classes elsewhere.  "
-        "Merging collisions: radii placed from a pilot run so that 0-3 mergers happen; mass partition, momentum and "
-        "centre-of-mass line checked at every step boundary.  Diagnostics: energy/angular_momentum/com of random "
-        "particle sets (zero masses included) against the longdouble formulas.  Non-trivial = >= 3 bodies, >= 100 steps, "
-        ">= 3 checkpoints and (deferred synchronisation with an intermediate synchronize, or a merger happened); "
-        "diagnostics: N >= 2 with at least one massive particle; distinct by case hash.")
+RULE = ("Generated all-active bounded systems (star+planets >= 8 Hill radii apart with e<=0.3, and Jacobi-built "
+        "hierarchical comparable-mass systems for the non-Wisdom-Holman schemes), optional uniform boost, integrator "
+        "configuration from the documented lattice (WHFast coordinate systems equally weighted), either time direction, "
+        "and a generated interleaving of steps()/integrate()/synchronize() calls; after every call the state is "
+        "synchronised and P=sum m v, sum m x - P0 t, L=sum m x x v, E and sum m are formed from the raw particle array "
+        "in numpy longdouble and compared with their initial values; tolerances are K*eps*steps*ops_per_step*sum|terms| "
+        "for the rounding-level statements and stated accuracy classes elsewhere (the symplectic energy bound does not "
+        "grow with the number of steps: the thorough tier applies it after up to 1.8e4 steps, which is the "
+        "'non-drifting' statement).  Merging collisions: wide systems with radii placed from a pilot run, and close "
+        "pairs 1-3.5 mutual Hill radii apart with physical radii (real encounters for the hybrid schemes), 0-3 mergers; "
+        "masses must be sums over a partition of the initial masses at every change of N, momentum and centre-of-mass "
+        "line at the end.  Diagnostics: energy/angular_momentum/com of random particle sets (zero masses included) "
+        "against the longdouble formulas.  Non-trivial = >= 3 bodies, >= 100 steps, >= 3 checkpoints and deferred "
+        "synchronisation with an intermediate synchronize (conserve); a merger happened in a run of >= 100 steps with "
+        ">= 3 bodies (merge); N >= 2 with total mass > 0 (diagnostics); distinct by case hash.")
 ASSUMPTIONS = [
-    "numpy longdouble is the x87 80-bit format (eps 2^-63): the oracle's own rounding is negligible against double rounding",
-    "rounding-level tolerances grow linearly with the number of steps taken (worst case); measured errors grow like sqrt(steps)",
-    "angular momentum is asserted to rounding for whfast/saba/eos/leapfrog/janus (compositions of maps that conserve L exactly); "
-    "for IAS15, BS, MERCURIUS and TRACE to the accuracy class stated in the module (L_CLASS)",
-    "energy accuracy classes (E_CLASS) are a-priori generous bounds, not sharp: IAS15 1e-12*sqrt(steps) of sum|terms|, "
-    "BS 30*eps_rel*steps, Wisdom-Holman family 100*(planet/star mass)*(dt/P_min)^2 (2000* for WHFast barycentric coordinates) relative to the binding-energy scale, T+V splittings 20*(2 pi dt/P_min)^2",
+    "numpy longdouble is the x87 80-bit format (eps 2^-63, checked in prepare): the oracle's own rounding is negligible against double rounding",
+    "rounding-level tolerances grow linearly with steps*elementary operations per step (worst case); measured errors grow like the square root",
+    "angular momentum is asserted to rounding (K_L=256) for whfast (Jacobi, democratic heliocentric, WHDS)/saba/eos/leapfrog/janus; "
+    "WHFast in barycentric coordinates does not conserve L exactly by construction (the star's m0 r0 x v0 is implied, its "
+    "cross terms are not carried by the Kepler drift; measured |dL| ~ 3 eps_mass (dt/P)^2): asserted to 500 eps_mass (dt/P)^2; "
+    "IAS15 1e-12*sqrt(steps), BS 30*eps_rel*steps, MERCURIUS and TRACE 1e-9 (relative to sum m|x||v|)",
+    "energy accuracy classes are a-priori generous bounds, not sharp: IAS15 1e-12*sqrt(steps) of sum|terms| (epsilon=0 only with dt <= 0.02 P_min), "
+    "BS 30*eps_rel*steps, Wisdom-Holman family 100*(planet/star mass)*(dt/P_min)^2 (2000* for WHFast barycentric coordinates) "
+    "relative to the binding-energy scale, T+V splittings (leapfrog, EOS, JANUS) 20*(2 pi dt/P_min)^2",
     "reb_simulation_energy is compared without softening (it does not include it) and with all particles active",
     "JANUS conserves on its integer grid: tolerances get an additive term steps*stages*sum|m|*scale",
+    "exact_finish_time=1 is not combined with keep_unsynchronized=1 (dt must not change while unsynchronised); IAS15 "
+    "adaptive_mode=0 runs without boost and a collapsed adaptive step is skipped and counted (documented limitation of that mode)",
 ]
 CLASSES = ["conserve/whfast", "conserve/saba", "conserve/eos", "conserve/leapfrog", "conserve/janus", "conserve/ias15",
            "conserve/bs", "conserve/mercurius", "conserve/trace", "conserve/deferred_sync", "conserve/boost",
@@ -36,6 +45,14 @@ CLASSES = ["conserve/whfast", "conserve/saba", "conserve/eos", "conserve/leapfro
            "diagnostics/zero_mass", "diagnostics/all_massless"]
 
 EPS = 2.0 ** -52
+
+
+def prepare(tier):
+    import numpy as np
+    if not np.finfo(np.longdouble).eps < 1.2e-19:
+        raise RuntimeError("numpy longdouble is not the 80-bit extended format on this machine: the C04 oracle needs it")
+
+
 L_ROUNDING = ("whfast", "saba", "eos", "leapfrog", "janus")
 WH_FAMILY = ("whfast", "saba", "mercurius", "trace")
 # rounding-level constants (see report: measured maxima over seeds 1..8 are in evidence stats "*_over_tol")
@@ -647,8 +664,8 @@ def run_diag(case, ctx):
 
 def subs(tier):
     out = [
-        Sub("conserve", run_conserve, strategy=conserve_case, quick=2000, thorough=4000, shards_quick=8, shards_thorough=16),
-        Sub("merge", run_merge, strategy=merge_case, quick=600, thorough=6000, shards_quick=4, shards_thorough=16),
+        Sub("conserve", run_conserve, strategy=conserve_case, quick=2000, thorough=12000, shards_quick=8, shards_thorough=16),
+        Sub("merge", run_merge, strategy=merge_case, quick=600, thorough=15000, shards_quick=4, shards_thorough=16),
         Sub("diagnostics", run_diag, strategy=diag_case, quick=3000, thorough=60000, shards_quick=2, shards_thorough=8),
     ]
     return out
